@@ -202,6 +202,53 @@ def oracle(ctx):
         ctx.fail("oracle", "jac:cache-freshness", {}, {"inside": inside, "after": after},
                  {"inside": torch.diag(2 * newa.detach() * newx.detach()), "after": before})
 
+    # the same for tensors held by the function's object (EditableModule, nn.Module): the replaced tensor is the one the
+    # products use and are differentiable with respect to, and the object is untouched afterwards (fix F31: the operator
+    # shared the pure function's own parameter list, so editing it turned the substitution into a no-op)
+    import xitorch as xt
+
+    class HoldEM(xt.EditableModule):
+        def __init__(self, a_):
+            self.a = a_
+
+        def f(self, x_):
+            return self.a * x_ ** 2 + torch.sin(x_)
+
+        def getparamnames(self, methodname, prefix=""):
+            return [prefix + "a"]
+
+    class HoldNN(torch.nn.Module):
+        def __init__(self, a_):
+            super().__init__()
+            self.a = torch.nn.Parameter(a_.detach().clone())
+
+        def forward(self, x_):
+            return self.a * x_ ** 2 + torch.sin(x_)
+    for kind, holder in (("EditableModule", HoldEM(a)), ("nn.Module", HoldNN(a))):
+        fobj = holder.f if kind == "EditableModule" else holder.forward
+        Jo = jac(fobj, (x,), idxs=0)
+        held = holder.a
+        ps = Jo.getlinopparams()
+        newa2 = torch.tensor([2.0, 3.0], dtype=DT, requires_grad=True)
+        newx2 = torch.tensor([1.1, -0.4], dtype=DT, requires_grad=True)
+        repl = [newa2 if p is held else (newx2 if p is x else p) for p in ps]
+        u = torch.tensor([1.0, -2.0], dtype=DT)
+        with Jo.uselinopparams(*repl):
+            prod = Jo.mv(u)
+            rprod = Jo.rmv(u)
+        ga = torch.autograd.grad(prod.sum() + rprod.sum(), newa2, allow_unused=True)[0]
+        want = (2 * newa2 * newx2 + torch.cos(newx2)).detach() * u
+        ctx.count(("oracle-cache-object", kind), nontrivial=True)
+        info = {"function_kind": kind}
+        if not any(p is held for p in ps):
+            ctx.fail("oracle", "jac:object-parameter-not-listed", info, len(ps), "the held tensor is an operator parameter")
+        elif not torch.allclose(prod.detach(), want) or not torch.allclose(rprod.detach(), want):
+            ctx.fail("oracle", "jac:object-parameter-replaced:value", info, [prod.detach(), rprod.detach()], want)
+        elif ga is None or not torch.allclose(ga, 4 * newx2.detach() * u):
+            ctx.fail("oracle", "jac:object-parameter-replaced:gradient", info, ga, 4 * newx2.detach() * u)
+        if holder.a is not held:
+            ctx.fail("oracle", "jac:object-parameter-not-restored", info, "different object", "same tensor object")
+
 
 def search(ctx):
     oracle(ctx)
